@@ -255,6 +255,15 @@ theorem endBlock_rec {s : St} (fails : List (Nat × Nat)) (hi : FinInv s) {id : 
       · exact hge
     · rw [hfp.1, hfp.2]; exact (hi1.ras r1 hr1).le
 
+/-- `EndBlock` creates and removes no rollapp -/
+theorem endBlock_ids_eq {s : St} (fails : List (Nat × Nat)) (hc : ChainAll s) (hi : FinInv s) :
+    (endBlock s fails).ras.map (·.id) = s.ras.map (·.id) := by
+  obtain ⟨hi1, _⟩ := finalizeRollappStates_fin fails hi
+  obtain ⟨_, _, hids, _⟩ := finalizeRollappStates_rel fails hi.nodup
+  have hc1 := finalizeRollappStates_chain fails hc
+  unfold endBlock
+  exact ((checkLiveness_fs _ (hi1.pre hc1)).2.ids).trans hids
+
 -- ---------------------------------------------------------------- nothing below the first height
 
 /-- under the chain invariant the height lookup returns nothing below the first recorded height -/
